@@ -28,9 +28,22 @@ type Case struct {
 	NN   []byte // wrap: new_nonce 32 bytes (fixed width, may start with zero bytes)
 	SN   []byte // wrap: server_nonce 16 bytes
 	Pad  []byte // wrap/msg: padding bytes a conformant peer uses
+	// ReuseNonceObjects (wrap): the two nonces are passed in the same two big.Int objects as in earlier cases, set to
+	// the new values in place
+	ReuseNonceObjects bool `json:",omitempty"`
 }
 
+// kept: outputs handed out earlier must stay what they were while the package works on other inputs
+var kept hx.Retain
+
 func oracle(c Case) error {
+	if err := oracleOne(c); err != nil {
+		return err
+	}
+	return kept.Verify()
+}
+
+func oracleOne(c Case) error {
 	return hx.Safely(func() error {
 		switch c.Kind {
 		case "raw":
@@ -177,11 +190,24 @@ func oracleMsg(c Case) error {
 	if !bytes.Equal(got, padded) {
 		return errors.New("Decrypt does not recover what a conformant server sealed")
 	}
+	kept.Keep("the output of Encrypt", func() []byte { return ct })
+	kept.Keep("the output of Decrypt", func() []byte { return got })
 	return nil
 }
 
+var (
+	reuseMu            sync.Mutex
+	reusedNN, reusedSN = new(big.Int), new(big.Int)
+)
+
 func oracleWrap(c Case) error {
 	nn, sn := new(big.Int).SetBytes(c.NN), new(big.Int).SetBytes(c.SN)
+	if c.ReuseNonceObjects {
+		// the caller keeps two nonce variables and gives them new values for every exchange
+		reuseMu.Lock()
+		defer reuseMu.Unlock()
+		nn, sn = reusedNN.SetBytes(c.NN), reusedSN.SetBytes(c.SN)
+	}
 	payload, gPayload := guarded(c.Data)
 	rk, riv := ref.TempKeys(c.NN, c.SN)
 
@@ -213,9 +239,12 @@ func oracleWrap(c Case) error {
 	need := (16 - len(want)%16) % 16
 	peer := append(append([]byte{}, want...), c.Pad[:need]...)
 	peerBlob, _ := ref.IGEEncrypt(rk, riv, peer)
-	if got := ige.DecryptMessageWithTempKeys(peerBlob, nn, sn); !bytes.Equal(got, c.Data) {
+	got := ige.DecryptMessageWithTempKeys(peerBlob, nn, sn)
+	if !bytes.Equal(got, c.Data) {
 		return fmt.Errorf("client does not recover a conformant peer's payload (got %d bytes, want %d)", len(got), len(c.Data))
 	}
+	kept.Keep("the output of EncryptMessageWithTempKeys", func() []byte { return blob })
+	kept.Keep("the output of DecryptMessageWithTempKeys", func() []byte { return got })
 	return nil
 }
 
@@ -249,6 +278,9 @@ func record(c Case) {
 	case "wrap":
 		nt = true
 		cls = append(cls, fmt.Sprintf("wrap:(20+len)%%16=%d", (20+len(c.Data))%16))
+		if c.ReuseNonceObjects {
+			cls = append(cls, "wrap:nonce-objects-reused-in-place")
+		}
 		if z := lz(c.NN); z > 0 {
 			cls = append(cls, fmt.Sprintf("wrap:new_nonce-leading-zero-bytes=%d", min(z, 4)))
 		}
@@ -256,7 +288,7 @@ func record(c Case) {
 			cls = append(cls, fmt.Sprintf("wrap:server_nonce-leading-zero-bytes=%d", min(z, 4)))
 		}
 	}
-	run.Case(nt, evid.Hash(c.Kind, c.Key, c.IV, c.Data, c.NN, c.SN), cls...)
+	run.Case(nt, evid.Hash(c.Kind, c.Key, c.IV, c.Data, c.NN, c.SN, c.ReuseNonceObjects), cls...)
 	run.Sample(map[string]any{"kind": c.Kind, "len": len(c.Data), "nn_lz": lz(c.NN), "sn_lz": lz(c.SN),
 		"data_head": fmt.Sprintf("%x", c.Data[:min(len(c.Data), 16)])})
 }
@@ -303,6 +335,7 @@ func gen(t *rapid.T) Case {
 		zeroLead(t, "snz", c.SN)
 		c.Data = hx.Bytes(t, "payload", run.Pick(600, 4096), 0, 12, 28, 44, 300, 304)
 		c.Pad = hx.FixedBytes(t, "pad", 16)
+		c.ReuseNonceObjects = rapid.Bool().Draw(t, "reuse-nonce-objects")
 	}
 	return c
 }
@@ -394,7 +427,7 @@ func exhaustive(t *testing.T) {
 	for l := 0; l <= maxLen; l++ {
 		for _, z := range [][2]int{{0, 0}, {1, 0}, {2, 0}, {4, 0}, {0, 1}, {1, 2}} {
 			c := Case{Kind: "wrap", NN: det(run.Seed+uint64(l)*7+uint64(z[0]), 32), SN: det(run.Seed+uint64(l)*13+uint64(z[1])+99, 16),
-				Data: det(run.Seed+uint64(l), l), Pad: det(uint64(l)+5, 16)}
+				Data: det(run.Seed+uint64(l), l), Pad: det(uint64(l)+5, 16), ReuseNonceObjects: (l+z[0])%2 == 1}
 			for i := 0; i < z[0]; i++ {
 				c.NN[i] = 0
 			}
